@@ -23,7 +23,7 @@ class FrontEndError(Exception):
 
 def find_template_dir(backend):
     rel = TEMPLATE_DIR[backend]
-    for d in sys.path + ["/repo"]:
+    for d in [os.environ.get("VERIF_REPO", "/repo")] + sys.path:
         c = os.path.join(d, rel)
         if os.path.isdir(c):
             return c
